@@ -12,6 +12,7 @@ RULE = ('one record per one-shot encrypt / decrypt or per incremental history (a
 ASSUMPTIONS = ['ChaCha20, Poly1305 models of C03/C05; composition pinned by RFC 8439 2.8.2']
 FLOORS = {'evaluations': 2000, 'distinct': 1500}
 THOROUGH_ROUNDS = 30   # thorough tier: generator passes with derived seeds (runner.gen_rounds)
+EXTRA_CFGS = ['f32']   # the workload is also executed by the force-32bits build of the library; results must not change (runner.standard_check)
 LENS = [0, 1, 15, 16, 17, 31, 32, 33, 63, 64, 65]
 
 
